@@ -449,10 +449,35 @@ async fn settle() {
 }
 
 async fn run_hist(u: &mut Universe, case: &Value) -> Value {
-    let (_net, _evrx, mut driver) = NetworkBuilder::new(Keypair::ed25519_from_bytes([0xEE; 32]).unwrap(), true)
-        .build_client()
-        .expect("client-mode driver");
+    // "node": true -- the reader is a node with its own record store, pre-filled with "local": [recspec..]
+    let node_mode = case["node"].as_bool().unwrap_or(false);
+    let mut node_dir: Option<std::path::PathBuf> = None;
+    let (_net, _evrx, mut driver) = if node_mode {
+        static COUNTER: std::sync::atomic::AtomicUsize = std::sync::atomic::AtomicUsize::new(0);
+        let dir = std::env::temp_dir().join(format!(
+            "c05_node_{}_{}", std::process::id(), COUNTER.fetch_add(1, std::sync::atomic::Ordering::SeqCst)));
+        let _ = std::fs::remove_dir_all(&dir);
+        std::fs::create_dir_all(&dir).expect("node dir");
+        node_dir = Some(dir.clone());
+        let mut b = NetworkBuilder::new(Keypair::ed25519_from_bytes([0xEE; 32]).unwrap(), true);
+        b.listen_addr("127.0.0.1:0".parse().unwrap());
+        b.build_node(dir).expect("node-mode driver")
+    } else {
+        NetworkBuilder::new(Keypair::ed25519_from_bytes([0xEE; 32]).unwrap(), true)
+            .build_client()
+            .expect("client-mode driver")
+    };
     let me = driver.verif_self_peer_id();
+    let mut local_abs: Vec<Value> = Vec::new();
+    if let Some(locals) = case["local"].as_array() {
+        for spec in locals {
+            let rec = u.record(spec, me);
+            let key = rec.key.clone();
+            let put = driver.verif_put_local_record(rec);
+            let got = driver.verif_local_record(&key);
+            local_abs.push(json!({"put": put.is_ok(), "held": got.map(|r| u.rec_abs(&r, me))}));
+        }
+    }
     // the Network handle the api callers use: its command channel is owned by the harness
     let (cmd_tx, mut cmd_rx) = mpsc::channel::<NetworkSwarmCmd>(64);
     let (local_tx, _local_rx) = mpsc::channel(64);
@@ -618,7 +643,11 @@ async fn run_hist(u: &mut Universe, case: &Value) -> Value {
     for c in callers.iter_mut() {
         if let Caller::Api(Some(h)) = c { h.abort(); }
     }
-    json!({"steps": steps, "waiting": waiting, "abs": abs_checks,
+    drop(driver);
+    if let Some(d) = node_dir {
+        let _ = std::fs::remove_dir_all(d);
+    }
+    json!({"steps": steps, "waiting": waiting, "abs": abs_checks, "local": local_abs,
            "majority": close_group_majority()})
 }
 
